@@ -355,7 +355,7 @@ def check(run, prog, tier):
     c02g.check(run, prog, tier, callgraph.CallGraph(prog))
 
     # ---- C02-h every kind of permanent identifier that a compilation can redefine is tracked for clean-up
-    run.rule("C02-h", "identifier table: the mask tested before an identifier is put on the dirty list (whose entries free_unused_identifiers() resets after each compilation) covers every token bit with which permanent identifiers are created (the second argument of find_or_add_perm_ident at all call sites, and direct stores of IHE_* bits)", 1)
+    run.rule("C02-h", "identifier table: the mask tested before an identifier is put on the dirty list (whose entries free_unused_identifiers() resets after each compilation) covers every token bit with which permanent identifiers are created (the second argument of find_or_add_perm_ident at all call sites, and direct stores of IHE_* bits); free_unused_identifiers() resets or drains every static it writes on every path from its entry", 4)
     perm_bits = 0
     nsrc = 0
     for f in prog.functions():
@@ -401,7 +401,15 @@ def check(run, prog, tier):
     c02i.check(run, prog, tier)
     c02i.check_rebase(run, prog)
 
+    # C02-h, second half: the clean-up runs on every path
+    import rules.identreset as identreset
+    identreset.check(run, prog, "C02-h", "redefinitions of efun/simul_efun names (function_num, global_num, class_num of permanent identifiers) leak into the next compilation, which then resolves the name to a slot of its own function table")
+
     # ---- C02-o bytes versus element index in the compiler's memory blocks
     import rules.unitsrule as unitsrule
     unitsrule.check(run, prog, "C02-o", lambda f, text: True, 20,
                     "the compiler reads or writes its block at the wrong place (out of bounds for large programs)")
+
+    # ---- C02-p pointers into a memory block across calls that can grow it
+    import rules.C02p as c02p
+    c02p.check(run, prog, tier)
